@@ -135,7 +135,11 @@ TReturn == /\ Is("return")
                       \cup If(E.same_buf = 0 \/ E.cons_buf = 1, "buffer")
                       \cup If(~Descent \/ E.obj_lb <= obj0, "start")
                       \cup If(~Descent \/ E.obj_lb <= obj, "descent")
-                      \cup If(E.zc = 1, "zero_col_zero")
+                      \* a start that already has weight on a null column (zc0 = 0) must come back with exactly 0
+                      \* there: always for the solvers whose null-column update is an exact proximal step
+                      \* (zcs = 1: one epoch does it), and whenever convergence is claimed for those that only
+                      \* shrink it step by step (FISTA)
+                      \cup If(E.zc = 1 \/ (E.zc0 = 0 /\ E.zcs = 0 /\ ~stopped), "zero_col_zero")
                       \cup If(E.nobj = nh, "hist_len")
                       \cup If(nh = 0 \/ nh # E.nobj \/ PrefixEq(E.objs, hist, Min(shown, nh)),
                               "hist_ret")
